@@ -363,6 +363,14 @@ class LabelsReader(Thread):
                     for inst in lf:
                         if not inst.is_empty:
                             instances.append(inst.numpy())
+                    if not instances:
+                        # a frame without (non-empty) instances is still a frame: deliver it
+                        # with a single all-NaN instance instead of stopping the reader
+                        instances.append(
+                            np.full(
+                                (len(self.labels.skeletons[0].nodes), 2), np.nan
+                            )
+                        )
                     instances = np.stack(instances, axis=0)
 
                     # Add singleton time dimension for single frames.
